@@ -4,7 +4,8 @@ from multiprocessing import Pool
 import vlib, corpus, absl
 
 FORMS = ["-- vsg_off", "-- vsg_off {a}", "-- vsg_off {a} {b}", "-- vsg_on", "-- vsg_on {a}", "-- vsg_on {b}", "-- vsg_disable_next_line {a}",
-         "-- vsg_disable_next_line {a} {b}", "-- vsg_off {a} : because", "-- vsg_on all", "-- vsg_off all", "-- vsg_on {a} {b} : done", "-- vsg_offset", "--vsg_off"]
+         "-- vsg_disable_next_line {a} {b}", "-- vsg_off {a} : because", "-- vsg_on all", "-- vsg_off all", "-- vsg_on {a} {b} : done", "-- vsg_offset", "--vsg_off",
+         "-- vsg_off {a} {a}", "-- vsg_off {b} {a} {b}", "-- vsg_disable_next_line {a} {a}"]
 
 
 def ckind(t):
@@ -112,7 +113,14 @@ def run(tier):
             a = r.choice(ids)
             b = r.choice(ids + ["signal_007", "foo_001"])
             taglines = set()
-            if j == 0:
+            if j == 1:
+                # a region that names the same rule twice and is closed again: what follows is outside every tag
+                k = r.randint(0, max(0, len(ls) // 3))
+                seq = ["-- vsg_off %s %s" % (a, b), "-- vsg_off %s" % a, "-- vsg_on %s %s" % (a, b)]
+                for n_, t in enumerate(seq):
+                    ls.insert(k + 2 * n_, t)
+                taglines |= set(seq)
+            elif j == 0:
                 # whole file wrapped in a bare vsg_off, a named tag later on
                 ls.insert(0, "-- vsg_off")
                 k = r.randint(1, len(ls))
